@@ -48,8 +48,10 @@ WRITE_FAULTS = [
     "crash_after_bytes",
     "crash_after_write",
 ]
+# fire only if save moves a file into place (it does not today)
+RENAME_FAULTS = ["rename_eio", "crash_before_rename", "crash_after_rename"]
 READ_FAULTS = ["read_eio"]
-CRASH_KINDS = {k for k in WRITE_FAULTS if k.startswith("crash")}
+CRASH_KINDS = {k for k in WRITE_FAULTS + RENAME_FAULTS if k.startswith("crash")}
 
 COLLECTION_TYPE = {
     "RecordingSet": "recording_set",
@@ -485,13 +487,15 @@ class AoefSim:
 
         if crashed:
             kind = fault["kind"]
-            if kind == "crash_after_write":
+            # what the crash left at the path is observed, not assumed: a
+            # writer that goes through a temporary file leaves the old
+            # document in place
+            if before == after:
+                self.files[p] = dict(entry_before, failed_before=True)
+            elif kind in ("crash_after_write", "crash_after_rename"):
                 self.files[p] = new_entry
                 self.probes.hit("save:crash-after-complete-write")
-                if after is not None:
-                    self.check_document(p, after, new_entry)
-            elif before == after:
-                self.files[p] = dict(entry_before, failed_before=True)
+                self.check_document(p, after, new_entry)
             else:
                 self.files[p] = {"status": "torn", "failed_before": True}
             return
@@ -740,6 +744,8 @@ def draw_run_cfg(rng, focus: str, tier: str) -> dict:
     if not cfg["fault_free"]:
         k = rng.randint(1, len(WRITE_FAULTS))
         cfg["write_faults"] = rng.sample(WRITE_FAULTS, k)
+        if rng.random() < 0.3:
+            cfg["write_faults"] += rng.sample(RENAME_FAULTS, rng.randint(1, 3))
         cfg["read_faults"] = READ_FAULTS if rng.random() < 0.5 else []
     small = dict(cfg["spec"])
     small.update(
